@@ -48,6 +48,13 @@ add("C09", "model_checking", "CronDaemon.tla models tick loop, late and bunched 
     "CronMatch on the structure the expressions were generated from (Props_Cron) and the guard rules applied to the answers each job was given",
     REC_NOTE + "; the fake client (history as seen by the guard); Go's time package for broken-down UTC time; watcher latency bound 5 s", "TLA+ daemon model (TLC) + per-tick records of the real daemon judged by TLC with an independent cron oracle", "cron", "5/C09")
 
+add("C13", "exploration", "structural mutation sweep of a rich valid definition (every node x 24 shapes + deletion: complete for single deviations; sampled pairs; sampled byte mutations) through all four loader entry points; "
+    "TLC (LoaderObserve) judges every record: never a crash, and an accepted definition satisfies the listed post-conditions (names, something to run, parseable schedules, valid signals, status serialisable and readable, preconditions evaluable, graph builds)",
+    "the TLA+ module is the judge and the statement of the post-conditions only - there is no implementation-shaped model of the YAML builder; 'every byte string' is sampled", "spec-defined post-conditions judged by TLC over an enumerated mutation sweep of the real loader", "loader", "5/C13")
+add("C19", "exploration", "LoaderPolicy.tla states the evaluation policy (entry point x field kind) and TLC checks that non-executing entries evaluate nothing; a back-tick command and a variable reference are planted in each of the 53 string-valued leaves x 13 entry points "
+    "(loader functions, DAG store, client status calls, daemon initDags; Load as vacuity control) and TLC judges every record (no command ran, os.Environ unchanged)",
+    "only the canary file and the process environment are observed; the policy table is a hand-written abstraction of builder.go", "TLA+ policy table (TLC) + exhaustive canary sweep of the real entry points judged by TLC", "loader", "5/C19")
+
 ALL = ["C%02d" % i for i in range(1, 21)]
 for p in ALL:
     if p not in CHECKS:
@@ -78,6 +85,8 @@ def main():
              "kind_free_text": "ptrace supervisor (kill at k-th system call, torn writes) around a history driver; records judged by TLC"},
             {"name": "cron", "path": "harness/rig/cron.go + spec/CronDaemon.tla + spec/Props_Cron.tla + spec/CronObserve.tla", "serves_properties": ["C09"],
              "kind_free_text": "tick driver around the real scheduler daemon with a recording fake client; records judged by TLC"},
+            {"name": "loader", "path": "harness/rig/loader.go + spec/LoaderObserve.tla + spec/LoaderPolicy.tla", "serves_properties": ["C13", "C19"],
+             "kind_free_text": "mutation and canary sweeps of the real loader entry points; records judged by TLC"},
             {"name": "admit", "path": "harness/rig/admit.go + spec/Admission.tla + spec/AdmissionObserve.tla", "serves_properties": ["C14"],
              "kind_free_text": "graph enumerator around scheduler.NewExecutionGraph / agent.Run; records judged by TLC"},
         ],
